@@ -536,6 +536,9 @@ fn matching(code: &[u8], i: usize) -> usize {
 
 pub fn mutate(r: &mut Rng, seed: &str) -> String {
     let mut code: Vec<u8> = seed.bytes().filter(|c| b"+-<>.,[]".contains(c)).collect();
+    if !crate::refint::balanced(&code) {
+        code.retain(|c| *c != b'[' && *c != b']');
+    }
     let k = 1 + r.below(3);
     for _ in 0..k {
         if code.is_empty() {
